@@ -61,6 +61,7 @@ fn main() {
         "nnvisit" => ops::nnvisit::run(&mut out, &mut rng, thorough),
         "clipperm" => ops::clipperm::run(&mut out, &mut rng, thorough),
         "cycle" => ops::clipperm::run_cycle(&mut out, &mut rng, thorough),
+        "clip1" => ops::clipperm::run_clip1(&mut out, &mut rng, thorough),
         "addfar" => ops::addfar::run(&mut out, &mut rng, thorough),
         "routes" => ops::routes::run_routes(&mut out, &mut rng, thorough),
         "partial" => ops::routes::run_partial(&mut out, &mut rng, thorough),
